@@ -71,6 +71,20 @@ def _escapes(expr):
     return out
 
 
+def _no_filter(expr, what):
+    """every comprehension inside expr keeps EVERY entry (no `if` clause): one key in, one key out."""
+    for n in ast.walk(expr):
+        if isinstance(n, (ast.DictComp, ast.ListComp, ast.SetComp, ast.GeneratorExp)):
+            if len(n.generators) != 1 or n.generators[0].ifs:
+                fail(n, f"{what}: a comprehension that filters (or nests) its entries is not an accepted shape")
+
+
+def _plain_to_dict(call):
+    """<x>.to_dict() with no argument: values as nested lists (the model's listify_keyed)."""
+    return (isinstance(call, ast.Call) and isinstance(call.func, ast.Attribute) and call.func.attr == "to_dict"
+            and not call.args and not call.keywords)
+
+
 def _one_escape(expr, node):
     e = _escapes(expr)
     if len(e) > 1:
@@ -248,6 +262,7 @@ class _FromDict:
         if len(ps) != 1:
             fail(node, f"a store must read exactly one key of dct['data'] (found {sorted(ps)})")
         key = ".".join(next(iter(ps))[1:])
+        _no_filter(rhs, "from_dict")
         self.read.append((FIELD[name], key, _one_escape(rhs, node)))
 
     def stmt(self, s):
@@ -376,6 +391,10 @@ def tr_photon(repo):
                 fail(n, "Photon.to_dict entry must store self._array")
             three_d = isinstance(n.value, ast.DictComp)
             if three_d:
+                _no_filter(n.value, "Photon.to_dict")
+                if ast.unparse(n.value.generators[0].iter).replace(" ", "") != "self._array.to_dict().items()" \
+                        or not isinstance(n.value.value, ast.Name):
+                    fail(n, "Photon.to_dict (3-D) must copy every entry of self._array.to_dict()")
                 wesc = _one_escape(n.value, n)
             wk["3d" if three_d else "2d"] = key
     if sorted(wk) != ["2d", "3d"]:
@@ -410,6 +429,7 @@ def tr_photon(repo):
             rk["3d"] = (key, tagname)
             e = set()
             for s in body_src:
+                _no_filter(s, "Photon.from_dict")
                 e |= _escapes(s)
             if len(e) > 1:
                 fail(node, "more than one key.replace")
@@ -455,6 +475,46 @@ def check_asdf(repo):
                     orient = _s(kw.value)
     if orient != "list":
         fail(ta, "to_asdf must convert the frame with to_dict(orient='list')")
+    # the processed data: {key: value.to_dict() for key, value in <data>.items()} - every group, values as lists
+    comps = [n for n in ast.walk(ta) if isinstance(n, ast.DictComp)]
+    if len(comps) != 1:
+        fail(ta, "to_asdf must convert the processed data with one dict comprehension")
+    c = comps[0]
+    _no_filter(c, "to_asdf")
+    g = c.generators[0]
+    if not (isinstance(g.target, ast.Tuple) and len(g.target.elts) == 2 and all(isinstance(e, ast.Name) for e in g.target.elts)
+            and isinstance(g.iter, ast.Call) and isinstance(g.iter.func, ast.Attribute) and g.iter.func.attr == "items"
+            and not g.iter.args):
+        fail(c, "to_asdf: the comprehension must run over <data>.items()")
+    kname, vname = (e.id for e in g.target.elts)
+    if not (isinstance(c.key, ast.Name) and c.key.id == kname and _plain_to_dict(c.value)
+            and isinstance(c.value.func.value, ast.Name) and c.value.func.value.id == vname):
+        fail(c, "to_asdf: every entry must be  key: value.to_dict()")
+    # Scene.to_dict / Scene.from_dict: every group, values as lists, and back
+    sc = parse(repo, "pyxel/data_structure/scene.py")
+    std = find_func(sc, "to_dict", cls="Scene")
+    comps = [n for n in ast.walk(std) if isinstance(n, ast.DictComp)]
+    if len(comps) != 1:
+        fail(std, "Scene.to_dict must be one dict comprehension")
+    c = comps[0]
+    _no_filter(c, "Scene.to_dict")
+    g = c.generators[0]
+    if not (isinstance(g.target, ast.Tuple) and len(g.target.elts) == 2 and isinstance(c.key, ast.Name)
+            and c.key.id == g.target.elts[0].id and _plain_to_dict(c.value) and isinstance(c.value.func.value, ast.Name)
+            and c.value.func.value.id == g.target.elts[1].id
+            and ast.unparse(g.iter).replace(" ", "") in ("self.data.to_dict().items()", "self._source.to_dict().items()")):
+        fail(c, "Scene.to_dict: every entry must be  key: value.to_dict()  over self.data.to_dict().items()")
+    sfd = find_func(sc, "from_dict", cls="Scene")
+    comps = [n for n in ast.walk(sfd) if isinstance(n, ast.DictComp)]
+    if len(comps) != 1:
+        fail(sfd, "Scene.from_dict must be one dict comprehension")
+    c = comps[0]
+    _no_filter(c, "Scene.from_dict")
+    if not (isinstance(c.key, ast.Name) and isinstance(c.value, ast.Call)
+            and ast.unparse(c.value.func).replace(" ", "") == "xr.Dataset.from_dict" and len(c.value.args) == 1):
+        fail(c, "Scene.from_dict: every entry must be  key: xr.Dataset.from_dict(value)")
+    if "DataTree.from_dict(" not in ast.unparse(sfd):
+        fail(sfd, "Scene.from_dict must rebuild the tree with xr.DataTree.from_dict")
     # Detector.load / save dispatch on the extension
     det = parse(repo, "pyxel/detectors/detector.py")
     for name, callee in (("load", "from_asdf"), ("save", "to_asdf")):
